@@ -63,7 +63,8 @@ Init ==
         /\ ctx = "endobj"
         /\ shape = "stream"
         /\ \E a \in Atoms(FALSE) : ValidAtom(a, FALSE) /\ items = <<Item("dopen", 1), Item("key", 1), Item(a.kind, a.var), Item("dclose", 1)>>
-        /\ \E eol \in {"lf", "crlf"}, s \in {None, "sp", "lf"} : seps = <<None, "sp", s, eol>>
+        \* between the dictionary and the keyword: nothing, white-space of any kind, or comments (each ends with an end-of-line)
+        /\ \E eol \in {"lf", "crlf"}, s \in {None, "sp", "lf", "crlf", "tab", "comment-lf", "comment-cr", "comments2"} : seps = <<None, "sp", s, eol>>
      \/ \* [ [ a ] << /K b >> ]
         /\ ctx \in {"eof", "endobj"}
         /\ shape = "nested"
